@@ -259,7 +259,7 @@ func main() {
 
 	tPhase := time.Now()
 	rounds := f.N(4, 5)
-	l1sync.Parallel(f.N(20, 120), f.N(4, 8), func(i int) []gen.Case { return runScenario(f.Seed, i, rounds) }, w)
+	l1sync.Parallel(f.N(20, 80), f.N(4, 8), func(i int) []gen.Case { return runScenario(f.Seed, i, rounds) }, w)
 
 	l1sync.Phase("scenarios", tPhase)
 	tPhase = time.Now()
@@ -271,12 +271,12 @@ func main() {
 	}
 	defer t.Close()
 	r := gen.NewRand(f.Seed ^ 0x3434)
-	for i, n := 0, f.N(250, 6000); i < n; i++ {
+	for i, n := 0, f.N(250, 3000); i < n; i++ {
 		w.Emit(discoverTreeCase(t, cwd, r, i))
 	}
 	l1sync.Phase("discover-trees", tPhase)
 	tPhase = time.Now()
-	for i, n := 0, f.N(800, 20000); i < n; i++ {
+	for i, n := 0, f.N(800, 10000); i < n; i++ {
 		w.Emit(selectCase(t, cwd, r))
 	}
 	for i, n := 0, f.N(200, 2000); i < n; i++ {
